@@ -44,6 +44,7 @@ type FuncContract struct {
 	NoPanic  bool     // no panic may leave this function
 	MayPanic bool     // callers must expect a panic
 	Preserves []string // heap key patterns the function leaves untouched (except on fresh objects)
+	KeepsCursor bool // assumed: the callee moves only navigators it created, never the caller's context cursor
 	Pure bool // deterministic and side-effect free: a call is an uninterpreted function of the arguments
 	Uses []string // names of axioms assumed at entry
 	Receiver string // parameter that plays the receiver for ghost updates / disjoint-operands of a plain function
@@ -249,6 +250,8 @@ func parseContracts(path string) (*Contracts, error) {
 				cur.Receiver = rest
 			case "pure":
 				cur.Pure = true
+			case "keeps-cursor":
+				cur.KeepsCursor = true
 			case "uses":
 				cur.Uses = append(cur.Uses, strings.Fields(rest)...)
 			case "preserves":
@@ -293,6 +296,9 @@ func parseContracts(path string) (*Contracts, error) {
 			case "loop":
 				ks, r2 := splitWord(rest)
 				k, err := strconv.Atoi(ks)
+				if ks == "*" {
+					k, err = -1, nil // every loop of the function
+				}
 				if err != nil {
 					return nil, fmt.Errorf("%s:%d: loop needs an ordinal", path, ln)
 				}
